@@ -34,6 +34,8 @@ DECIDING = {
     "pairs_none_argument": "None for either argument",
     "pairs_dotted_key": "dotted keys present",
     "pairs_shared_subobject": "same object reachable from both arguments",
+    "pairs_of_chains_nested_deeper_than_10": "two chains of nested sections (12-150 levels) with a key of their own at every level",
+    "pairs_of_chains_nested_deeper_than_32": "... of which deeper than 32 levels",
     "contract_evaluations": "icontract post-condition evaluated on the real function",
     "suite_contract_evaluations": "post-condition evaluated on the merges asphalt itself performs while the repository's test-suite runs",
 }
@@ -230,6 +232,15 @@ def run_case(case: Any) -> dict[str, Any]:
             b = rng.choice([None] + [rand_dict(rng, depth, shared)] * 9)
             if rng.random() < 0.05:
                 b = a
+            elif rng.random() < 0.08:
+                # two long chains of nested sections with a key of their own at every level: merged at every depth, however deep
+                deep = rng.choice([12, 17, 21, 33, 40, 65, 100, 150])
+                a, b = {"a_leaf": 1}, {"b_leaf": 2}
+                for lvl in range(deep):
+                    a, b = {"n": a, f"a{lvl}": lvl}, {"n": b, f"b{lvl}": [lvl]}
+                cnt["pairs_of_chains_nested_deeper_than_10"] += 1
+                if deep > 32:
+                    cnt["pairs_of_chains_nested_deeper_than_32"] += 1
             nt = _features(a, b, cnt)
             nontrivial |= nt
             cnt["pairs"] += 1
